@@ -1008,6 +1008,10 @@ class Client():
             hostname = splits.hostname
             port = splits.port
             scheme = splits.scheme
+            if not hostname:  # relative location so same scheme and authority
+                hostname = self.requester.hostname
+                port = self.requester.port
+                scheme = self.requester.scheme
             scheme = 'https' if scheme.lower() == 'https' else 'http'
             if scheme == 'https':
                 secured = True  # use tls socket connection
